@@ -311,6 +311,11 @@ h_pc!(c09_t_pc_f128x2_f64x3, 6, f128x2(anylen(256)), f64x3(anylen(192)), wit_sym
 h_cmp_ord2!(c09_q_ord_bvd2_bvd3, 5, bvd2(anylen(128)), bvd3(anylen(192)), wit_sym, 64);
 h_cmp_ord2!(c09_q_ord_bvd1_bvd2, 4, bvd1(anylen(64)), bvd2(anylen(128)), wit_sym, 8);
 h_cmp_ord2!(c09_q_ord_bvd3_bvd3, 5, bvd3(anylen(192)), bvd3(anylen(192)), wit_sym, 64);
+// Same scopes with an unwind bound that also covers a byte-wise slice comparison (memcmp loop) of the
+// common words: added after seeded change C09-E, which rewrites Bvd == Bvd on top of slice `==` and
+// made the harnesses above inconclusive (unwind bound exceeded) instead of refuting them.
+h_cmp_ord2!(c09_q_ordu_bvd1_bvd2, 10, bvd1(anylen(64)), bvd2(anylen(128)), wit_sym, 8);
+h_cmp_ord2!(c09_q_ordu_bvd2_bvd3, 18, bvd2(anylen(128)), bvd3(anylen(192)), wit_sym, 64);
 h_cmp_ord2!(c09_t_ord_bvd4_bvd1, 6, bvd4(anylen(256)), bvd1(anylen(64)), wit_sym, 64);
 h_cmp_ord2!(c09_t_ord_bvd2_bvd2, 4, bvd2(anylen(128)), bvd2(anylen(128)), wit_sym, 64);
 
